@@ -28,7 +28,7 @@ func main() {
 	repo := flag.String("repo", "/repo", "repository root")
 	out := flag.String("out", "", "output directory (rewritten files + overlay.json)")
 	extra := flag.String("extra", "", "directory with extra files: <pkgdir>/<name>.go.in")
-	mode := flag.String("mode", "base", "base: log,time; sched: log,time,io,bytes")
+	mode := flag.String("mode", "base", "base: log,time; sched: log,time,io,bytes,sync")
 	tests := flag.Bool("tests", false, "also rewrite _test.go files (used to validate the shim with the repository's own tests)")
 	flag.Parse()
 	if *out == "" {
@@ -42,6 +42,7 @@ func main() {
 	if *mode == "sched" {
 		redirect["io"] = "verif/shim/vio"
 		redirect["bytes"] = "verif/shim/vbytes"
+		redirect["sync"] = "verif/shim/vsync"
 	}
 	replace := map[string]string{}
 	n := 0
@@ -122,7 +123,7 @@ func main() {
 				if err == nil {
 					for _, imp := range f.Imports {
 						path, _ := strconv.Unquote(imp.Path.Value)
-						if to, ok := redirect[path]; ok && (path == "io" || path == "bytes") {
+						if to, ok := redirect[path]; ok && (path == "io" || path == "bytes" || path == "sync") {
 							if imp.Name == nil {
 								imp.Name = ast.NewIdent(filepath.Base(path))
 							}
